@@ -203,7 +203,7 @@ def run_cases(chk, cases, name="c01", full=False, edition15=False):
     # D2 accept/refuse
     # (definitions written through macro_rules!, or followed by a hand-written impl, cannot be fed to the in-process
     # expansion, which takes one item: rustc is their only judge)
-    d2 = B.run_inproc([(cid, text.replace("::educe::Educe", "Educe")) for cid, td, text in cases if "macro_rules!" not in text and "\nimpl" not in text and not text.startswith("pub fn ")],
+    d2 = B.run_inproc([(cid, text.replace("::educe::Educe", "Educe")) for cid, td, text in cases if "macro_rules!" not in text and "\nimpl" not in text and not text.startswith(("pub fn ", "pub type ", "pub struct Opaque", "pub trait "))],
                       items=False, full=full)
     nb = max(1, min(NCPU, len(cases) // 40 or 1))
     shards = H.shard(cases, nb)
